@@ -76,7 +76,10 @@ pub fn error_class(msg: &str) -> String {
     if m.contains("panicked at src/") || m.contains("refsolver internal") || m.contains("reference-limit") {
         return "BACKEND".to_string();
     }
-    let table: [(&str, &str); 12] = [
+    let table: [(&str, &str); 13] = [
+        // PDR's own consistency error (not a reply of the solver): a proof-obligation cube contains an
+        // initial state and generalisation cannot repair it
+        ("original cube intersects with init", "fix_gen_cube-cube-intersects-init"),
         ("as const", "const-array-unsupported"),
         ("check-sat-assuming is not supported", "check-sat-assuming-unsupported"),
         ("get-unsat-assumptions is not supported", "unsat-assumptions-unsupported"),
